@@ -88,6 +88,37 @@ def run(tier, seed):
             cs = new
             prefix.append(blk)
 
+        # (a1) out-of-order presentation: each recorded block is offered once BEFORE its parent is known (refused), then
+        #      the chain is offered in order -- an earlier refusal must not stick; and the genesis evidence recomputes on
+        #      whatever chain state it is asked on
+        try:
+            rb_ = real_blocks()
+            cs3 = CoinState.zero()
+            for idx, (fn, raw, blk) in enumerate(rb_):
+                if idx + 1 < len(rb_):
+                    early = rb_[idx + 1][2]
+                    ve, _ = consensus_check.impl_verdict(cs3, early, early.timestamp)
+                    ck.case(('real-early', fn), kind='real-block-before-its-parent/%s' % ('accepted' if ve == [1] else 'refused'))
+                v3, new3 = consensus_check.impl_verdict(cs3, blk, blk.timestamp)
+                ck.case(('real-after-early', fn), kind='real-block-after-early-offer')
+                if v3 != [1]:
+                    ck.violation('real-block-rejected', 'recorded real block %s fails full validation after it had been offered '
+                                 'once before its parent was known: %s' % (fn, new3), {'kind': 'real', 'file': fn, 'early_offer': True})
+                    break
+                cs3 = new3
+            for label_, st_ in (('genesis-only state', CoinState.zero()), ('state holding the recorded blocks', cs3)):
+                try:
+                    evg = C.construct_pow_evidence(st_, genesis.header.summary, 0, genesis.transactions)
+                    okg = (evg == genesis.header.pow_evidence)
+                except Exception as e:
+                    okg = False
+                ck.case(('genesis-evidence', label_), kind='genesis-evidence')
+                if not okg:
+                    ck.violation('genesis-evidence', 'the genesis proof-of-work evidence does not recompute on a %s' % label_,
+                                 {'kind': 'genesis', 'state': label_})
+        except Exception as e:
+            ck.disagree('scenario out-of-order real blocks raised %r' % (e,), {})
+
         # (a2) the same real blocks arriving while a competing (longer) branch is the node's head
         try:
             rb = real_blocks()
